@@ -29,9 +29,6 @@ def ref_complement(A, B, strict):
                 break
         else:
             out.append(tuple(x))
-    for op in ('recordcomplement', 'recorddiff'):
-        out.append(dict(name='%s/2x2/cols=3/Id2+Id2+Id2/bs=None' % op, func='setop',
-                        params=dict(op=op, NA=2 if q else 3, NB=2, ncols=3, dom='Id2+Id2+Id2', bs=None), budget=180 if q else 1200))
     return out
 
 
@@ -148,4 +145,8 @@ def jobs(tier):
                 out.append(dict(name='%s/%dx%d/cols=%d/%s/bs=%s' % (op, na, nb, nc, dom, bs), func='setop',
                                 params=dict(op=op, NA=na, NB=nb, ncols=nc, dom=dom, bs=bs),
                                 budget=180 if q else 1200))
+    for op in ('recordcomplement', 'recorddiff'):
+        out.append(dict(name='%s/cols=3/Id2+Id2+Id2/bs=None' % op, func='setop',
+                        params=dict(op=op, NA=2 if q else 3, NB=1 if (q and op == 'recorddiff') else 2, ncols=3, dom='Id2+Id2+Id2', bs=None),
+                        budget=240 if q else 1200))
     return out
